@@ -5,7 +5,7 @@ FILES = ["harness/algo/ref.go", "harness/algo/c02.go"]
 def run(c, replay):
     ov = c.harness_overlay("src/algo", FILES)
     b = c.build_test("src/algo", ov)
-    c.bounds = dict(text_len=c.pick(4, 6), text_alphabet="a b A á Á ␠ / _ 1 가 -", pattern_len=3,
+    c.bounds = dict(text_len=c.pick(4, 6), text_alphabet="a b A á Á ␠ U+3000 / _ 1 가 -", pattern_len=3,
                     matchers=7, schemes=3, flags="case x normalise x direction x representation",
                     fuzzy_variants="(positions, std slab) (no positions, nil slab) (positions, tiny slab)")
     c.assumptions += ["the normalisation table (algo.NormalizeRunes) and Go's unicode tables are trusted data",
